@@ -149,6 +149,11 @@ func (h *TraceHook) Call(e *Exec, fr *Frame, st *State, c *ssa.CallCommon, instr
 		en.vars["$obj"] = ev{obj, nil}
 		en.vars["$scope"] = ev{scope, nil}
 		en.vars["$kind"] = ev{IntLit(int64(kind)), nil}
+		if strings.HasSuffix(fr.path, "defer>") {
+			en.vars["$deferred"] = ev{True, nil}
+		} else {
+			en.vars["$deferred"] = ev{False, nil}
+		}
 		cond, body, ok := e.tryAtEval(en, ae)
 		if !ok {
 			continue // a name of the clause is not in use at this program point
